@@ -305,7 +305,7 @@ def T4(m, R):
     fnf = m.fn('_AnsiControlFn.fn')
     rets = [n for n in fnf.walk() if isinstance(n, ast.Return)]
     good = len(rets) == 1 and isinstance(rets[0].value, ast.BinOp) and isinstance(rets[0].value.op, ast.Add) and \
-        norm(rets[0].value.left) == 'self.setup_seq' and norm(rets[0].value.right) == 'tuple(%s)' % fnf.vararg
+        norm(rets[0].value.left) == 'self.setup_seq' and norm(rets[0].value.right) in ('tuple(%s)' % fnf.vararg, fnf.vararg)
     R.check(good, fnf, rets[0] if rets else fnf.node, 'fn() returns setup_seq + tuple(args)', construct='fn return')
     guard = [n for n in fnf.walk() if isinstance(n, ast.If)]
     gok = False
@@ -531,6 +531,8 @@ def T7(m, R):
         for p in parts:
             if call_name(p) == 'str' and len(p.args) == 1 and isinstance(p.args[0], ast.Name):
                 vals.append(('param', p.args[0].id))
+            elif isinstance(p, ast.Name) and p.id in f.params:
+                vals.append(('raw-param', p.id))
             else:
                 try:
                     vals.append(('const', F.fold(p)))
@@ -552,6 +554,10 @@ def T7(m, R):
                     out.append((k, v))
             return out
         got = merge(vals)
+        raw = [v for k, v in got if k == 'raw-param']
+        if raw:
+            R.viol(f, rets[0], 'parameter %s is concatenated to the sequence without str(): the documented int argument raises TypeError' % raw[0], construct=name)
+            continue
         if any(k == '?' for k, _ in got):
             R.undecided(f, rets[0], 'return expression has an unfoldable part', construct=name)
             continue
